@@ -1576,7 +1576,7 @@ fn cmd_check(a: &Args) -> i32 {
         "coverage": {
             "evaluations": total_runs,
             "distinct_nontrivial": distinct_nontrivial,
-            "rule": "one evaluation = one simulated execution of a generator main() (and of every thread it starts) from start to finish under a seeded schedule (read_dir order, hasher keys and iteration tweak of every HashMap/HashSet, short-read/EINTR plan of every opened file, short-write/EINTR plan of every output stream, and for programs with threads: the task chosen at every scheduling step, deadlines passed, core count). Two executions are distinct when the digest of their seam-level event log differs (every seam call with its decision and a digest of what it returned or printed); non-trivial = differs from the event log of the all-default schedule (sorted directory, keys (0,0), no tweak).",
+            "rule": "one evaluation = one simulated execution of a generator main() (and of every thread it starts) from start to finish — or to the crash point at which a run of a session is cut short — under a seeded schedule (read_dir order, hasher keys and iteration tweak of every HashMap/HashSet, short-read/EINTR plan of every opened file, one read failing with EIO in a sixth of the runs, short-write/EINTR plan of every output stream, the open-file limit once a program hoards descriptors, and for programs with threads: the task chosen at every scheduling step, deadlines passed, core count); the runs of the crash-restart sessions (earlier runs, second instances, judged runs) are counted too. Two executions are distinct when the digest of their seam-level event log differs (every seam call with its decision and a digest of what it returned or printed); non-trivial = differs from the event log of the all-default schedule (sorted directory, keys (0,0), no tweak).",
             "samples": samples,
             "exhaustive": false,
             "simulated_runs": { "generate_layout_seeded_search": lay.runs, "generate_layout_adjacency_covering_family": cvr.runs, "generate_likelysubtags": lik.runs },
